@@ -402,7 +402,9 @@ def main(run):
         k = parts.get(group, 0)
         parts[group] = k + 1
         name = group if k == 0 else "%s_p%d" % (group, k)
-        run.correspond(name, "C08", terms, cases)
+        # coqc parses big literals slowly: aim at ~120 KB of case text per shard so all cores are used
+        avg = max(1, sum(len(t) for t in terms) // len(terms))
+        run.correspond(name, "C08", terms, cases, shard=max(20, min(400, 120000 // avg)))
         if name != group:                      # merge the statistics under the group's name
             st = run.corr_groups.pop(name)
             tot = run.corr_groups.setdefault(group, {"cases": 0, "disagree": 0, "errors": 0})
